@@ -21,6 +21,12 @@
 //!              pinning policy, see `establish`): the driver has then certainly published it.  A request during which
 //!              the set of live connections changed is reported `unsettled` (not judged).
 //!
+//! Refiller tie, one line per node at the end of a cluster's life:
+//!   R <nr_shards>.<msb> <pool>/<shard-aware port disallowed> <kill rounds k<n>,.. | -> | <events> <final shards> 
+//!     events: ;-joined, in the order the mock saw them:  r<conn>.<shard>.<shard-aware port 0|1> (handshake of a pool
+//!     connection completed) | b<conn>.<shard> (the mock cut it); final shards: +-joined server-side shards of the
+//!     established pool | _
+//!
 //! Pool tie, one line per (node, shard) probed in the pass that established the pools:
 //!   P <nr_shards>.<msb> <pool S<k>|H<k>>/<shard-aware port disallowed> <wanted shard> | <server-side shard of the serving connection> <shards of the node's connections>
 use scylla::client::execution_profile::ExecutionProfile;
@@ -493,6 +499,13 @@ struct Running {
     judged: BTreeMap<u64, (usize, u16)>,
     /// pool-tie lines of the pass that established `judged`
     ptie: Vec<(String, String)>,
+    /// connection life cycle as the mock saw it: conn id -> (node, shard, shard-aware port, handshake done)
+    life: BTreeMap<u64, (usize, u16, bool, bool)>,
+    control: HashSet<u64>,
+    /// (node, 'r' | 'b', conn id) in trace order
+    events: Vec<(usize, char, u64)>,
+    /// kill rounds applied per node
+    rounds: Vec<Vec<usize>>,
 }
 
 const SENT_TEXT: &str = "INSERT INTO zzks.zz (c0) VALUES (?)";
@@ -552,7 +565,7 @@ impl Running {
             }
         };
         let probe_pol = Arc::new(ProbePolicy { target: Mutex::new((host_id_for(0), 0)) });
-        let mut r = Running { c: c.clone(), cluster, session, sentinel: None, round: 0, probe: None, probe_pol, judged: BTreeMap::new(), ptie: vec![] };
+        let mut r = Running { c: c.clone(), cluster, session, sentinel: None, round: 0, probe: None, probe_pol, judged: BTreeMap::new(), ptie: vec![], life: BTreeMap::new(), control: HashSet::new(), events: vec![], rounds: vec![vec![]; c.nodes.len()] };
         if !r.settle(false).await {
             r.stop();
             return Err("unsettled-initial".into());
@@ -600,18 +613,89 @@ impl Running {
         }
         Ok(r)
     }
+    /// drains the mock's trace, keeping the life cycle of the connections
+    fn drain(&mut self) -> Vec<TraceEvent> {
+        let tr = self.cluster.drain_trace();
+        for e in &tr {
+            match &e.ev {
+                Ev::Open { shard_aware_port, .. } => {
+                    self.life.insert(e.conn_id, (e.node, e.shard, *shard_aware_port, false));
+                }
+                Ev::Out { opcode, .. } if *opcode == op::READY => {
+                    if let Some(l) = self.life.get_mut(&e.conn_id) {
+                        if !l.3 {
+                            l.3 = true;
+                            self.events.push((e.node, 'r', e.conn_id));
+                        }
+                    }
+                }
+                Ev::In { opcode, .. } if *opcode == op::REGISTER => {
+                    self.control.insert(e.conn_id);
+                }
+                Ev::Close { by } => {
+                    if *by != CloseBy::Client && self.life.get(&e.conn_id).is_some_and(|l| l.3) {
+                        self.events.push((e.node, 'b', e.conn_id));
+                    }
+                }
+                _ => {}
+            }
+        }
+        tr
+    }
+    /// the refiller-tie line of node i: "<case>", "<impl>"
+    fn rline(&self, i: usize) -> (String, String) {
+        let n = &self.c.nodes[i];
+        let case = format!(
+            "R {:x}.{:x} {}{:x}/{} {}",
+            n.nr, n.msb, if self.c.cfg.per_shard { "S" } else { "H" }, self.c.cfg.pool_n, b01(self.c.cfg.no_sap),
+            if self.rounds[i].is_empty() { "-".to_string() } else { self.rounds[i].iter().map(|k| format!("k{:x}", k)).collect::<Vec<_>>().join(",") }
+        );
+        let evs: Vec<String> = self
+            .events
+            .iter()
+            .filter(|(nd, _, cid)| *nd == i && !self.control.contains(cid))
+            .map(|(_, k, cid)| {
+                let l = self.life[cid];
+                if *k == 'r' { format!("r{:x}.{:x}.{}", cid, l.1, b01(l.2)) } else { format!("b{:x}.{:x}", cid, l.1) }
+            })
+            .collect();
+        let mut fin: Vec<u16> = self.judged.values().filter(|(nd, _)| *nd == i).map(|(_, s)| *s).collect();
+        fin.sort();
+        (
+            case,
+            format!(
+                "{} {}",
+                if evs.is_empty() { "-".to_string() } else { evs.join(";") },
+                if fin.is_empty() { "_".to_string() } else { fin.iter().map(|s| format!("{:x}", s)).collect::<Vec<_>>().join("+") }
+            ),
+        )
+    }
+    /// cuts the `count` oldest pool connections of node i and waits until the pools are established again
+    async fn kill_round(&mut self, i: usize, count: usize) -> bool {
+        let ids: Vec<u64> = self.judged.iter().filter(|(_, (nd, _))| *nd == i).map(|(id, _)| *id).take(count).collect();
+        for id in &ids {
+            self.cluster.close_connection(i, *id, CutKind::Rst);
+        }
+        self.rounds[i].push(ids.len());
+        // the cut connections must be gone from the mock before the counts can be trusted
+        let t = Instant::now();
+        while t.elapsed() < Duration::from_secs(3) && self.live().keys().any(|c| ids.contains(c)) {
+            tokio::time::sleep(Duration::from_millis(2)).await;
+        }
+        self.establish().await
+    }
     /// live non-control connections of the mock: conn id -> (node, server-side shard)
     fn live(&self) -> BTreeMap<u64, (usize, u16)> {
         self.cluster.connections(None).iter().filter(|c| c.registered.is_empty()).map(|c| (c.conn_id, (c.node, c.shard))).collect()
     }
     /// one request aimed at (node, shard) through the pinning policy: which connection served it
-    async fn probe_once(&self, node: usize, shard: u32) -> Option<(usize, u64, u16)> {
+    async fn probe_once(&mut self, node: usize, shard: u32) -> Option<(usize, u64, u16)> {
         *self.probe_pol.target.lock().unwrap() = (host_id_for(node), shard);
-        let p = self.probe.as_ref().unwrap();
+        let p = self.probe.clone().unwrap();
         let id = self.cluster.prepared_id(PROBE_TEXT);
-        let _ = self.cluster.drain_trace();
-        let _ = tokio::time::timeout(Duration::from_secs(5), self.session.execute_unpaged(p, ())).await;
-        for e in self.cluster.drain_trace() {
+        let _ = self.drain();
+        let _ = tokio::time::timeout(Duration::from_secs(5), self.session.execute_unpaged(&p, ())).await;
+        for e in self.drain() {
             if let Ev::In { opcode, body, .. } = &e.ev {
                 if *opcode == op::EXECUTE && wire::decode_execute(body, false).map(|x| x.id == id).unwrap_or(false) {
                     return Some((e.node, e.conn_id, e.shard));
@@ -818,7 +902,7 @@ impl Running {
             if !self.still_established() && !self.establish().await {
                 return "unsettled -".into();
             }
-            let _ = self.cluster.drain_trace();
+            let _ = self.drain();
             let typed: Vec<Option<CqlValue>> = st.marks.iter().zip(vals).map(|(m, v)| to_cql(m.ty, v)).collect();
             let res = tokio::time::timeout(Duration::from_secs(10), async {
                 match st.api {
@@ -830,7 +914,7 @@ impl Running {
             .await;
             let id = self.cluster.prepared_id(&st.text());
             let mut obs = "none".to_string();
-            for e in self.cluster.drain_trace() {
+            for e in self.drain() {
                 if let Ev::In { opcode, body, .. } = &e.ev {
                     if *opcode == op::EXECUTE {
                         if let Ok(x) = wire::decode_execute(body, false) {
@@ -916,6 +1000,11 @@ fn gen_cluster(r: &mut Rng) -> ClusterC {
             NodeC { dc: (i % ndc) as u32 + 1, rack: r.range(1, nracks as u64) as u32, nr, msb: *r.pick(&[12u8, 12, 0, 4, 1]), up: 'u', flt: false, tokens }
         })
         .collect();
+    // a node without tokens: known, with a pool, not on the ring (it can still be a tablet replica)
+    if n > 2 && r.chance(1, 8) {
+        let i = r.range(1, n as u64 - 1) as usize;
+        nodes[i].tokens.clear();
+    }
     // liveness / host filter: keep at least one node fully usable
     if n > 1 {
         let style = r.below(8);
@@ -932,7 +1021,8 @@ fn gen_cluster(r: &mut Rng) -> ClusterC {
             }
             nodes[i].flt = flt;
         }
-        let keep = r.below(n as u64) as usize;
+        let with_tokens: Vec<usize> = (0..n).filter(|i| !nodes[*i].tokens.is_empty()).collect();
+        let keep = *r.pick(&with_tokens);
         nodes[keep].up = 'u';
         nodes[keep].flt = false;
     }
@@ -1030,7 +1120,7 @@ fn gen_tablet_ops(r: &mut Rng, c: &ClusterC, aim: &[i64]) -> Vec<TabOp> {
     let n = c.nodes.len() as u32;
     let nops = r.range(1, 8) as usize;
     let mut ops = Vec::new();
-    let style = *r.pick(&[0u64, 0, 0, 1, 2, 2, 3]);
+    let style = *r.pick(&[0u64, 0, 0, 1, 2, 2, 3, 4, 4]);
     for k in 0..nops {
         if r.chance(1, 7) && k > 0 {
             ops.push(TabOp::Refresh);
@@ -1054,9 +1144,34 @@ fn gen_tablet_ops(r: &mut Rng, c: &ClusterC, aim: &[i64]) -> Vec<TabOp> {
                 }
             }
         }
+        // split / merge (C15's shapes): an earlier tablet is re-announced as its two halves, or the range of
+        // two earlier neighbours as one tablet
+        if style == 4 && k > 0 {
+            let prev: Vec<(i64, i64)> = ops.iter().filter_map(|o| if let TabOp::Learn { a, b, .. } = o { if a < b { Some((*a, *b)) } else { None } } else { None }).collect();
+            if !prev.is_empty() {
+                let (pa, pb) = *r.pick(&prev);
+                let mid = ((pa as i128 + pb as i128) / 2) as i64;
+                let mk = |r: &mut Rng| -> Vec<(u32, i32)> {
+                    let h = r.range(1, n as u64) as u32;
+                    vec![(h, r.below(c.nodes[h as usize - 1].nr.max(1) as u64) as i32)]
+                };
+                if r.bool() && pa < mid && mid < pb {
+                    let r1 = mk(r);
+                    ops.push(TabOp::Learn { a: pa, b: mid, reps: r1 });
+                    let r2 = mk(r);
+                    ops.push(TabOp::Learn { a: mid, b: pb, reps: r2 });
+                } else {
+                    // merge with the right neighbour's range (or simply extend to the right)
+                    let right = prev.iter().filter(|(x, _)| *x == pb).map(|(_, y)| *y).next().unwrap_or(pb.saturating_add(1 << 40));
+                    let r1 = mk(r);
+                    ops.push(TabOp::Learn { a: pa, b: right, reps: r1 });
+                }
+                continue;
+            }
+        }
         let (a, b) = match style {
             // a partition of the whole ring in a few tablets
-            0 => {
+            0 | 4 => {
                 let parts = nops as i128;
                 let lo = i64::MIN as i128 + (k as i128) * ((1i128 << 64) / parts);
                 let hi = if k as i128 == parts - 1 { i64::MAX as i128 } else { i64::MIN as i128 + (k as i128 + 1) * ((1i128 << 64) / parts) };
@@ -1082,9 +1197,10 @@ fn gen_tablet_ops(r: &mut Rng, c: &ClusterC, aim: &[i64]) -> Vec<TabOp> {
         };
         let lo_rep = if r.chance(1, 10) { 0 } else { 1 };
         let nrep = r.range(lo_rep, 3.min(n as u64 + 1)) as usize;
-        let mut reps = Vec::new();
+        let mut reps: Vec<(u32, i32)> = Vec::new();
         for _ in 0..nrep {
-            let host = if r.chance(1, 12) { 900 + r.below(3) as u32 } else { r.range(1, n as u64) as u32 };
+            // sometimes the same host again (a tablet listing one host twice, with another shard)
+            let host = if r.chance(1, 12) { 900 + r.below(3) as u32 } else if !reps.is_empty() && r.chance(1, 10) { reps[0].0 } else { r.range(1, n as u64) as u32 };
             let nr = if host <= n { c.nodes[host as usize - 1].nr } else { 4 };
             let shard = match r.below(20) {
                 0 => 70000 + r.below(3) as i32,          // does not fit u16: the pool falls back to shard 0
@@ -1117,53 +1233,107 @@ async fn run_cluster(r: &mut Rng, c: &ClusterC, nkeys: usize, out: &mut Out) {
     for (case, o) in &run.ptie {
         out.case(case, o);
     }
+    // every statement is prepared first: tablet payloads for the tables are delivered interleaved
+    let mut prepared: Vec<Option<PreparedStatement>> = Vec::new();
     for st in &stmts {
-        let p = match run.session.prepare(st.text()).await {
+        match run.session.prepare(st.text()).await {
             Ok(mut p) => {
                 if st.serial {
                     p.set_consistency(Consistency::Serial);
                 }
-                p
+                prepared.push(Some(p));
             }
             Err(e) => {
                 out.case(&format!("K {} {} - {}", cf, st.field(), "n"), &format!("skip:prepare_{} -", format!("{:?}", e).replace(' ', "_")));
-                continue;
+                prepared.push(None);
             }
+        }
+    }
+    let per = (nkeys / nst).max(1);
+    let keys: Vec<Vec<Vec<Val>>> = stmts.iter().map(|st| (0..per).map(|_| gen_vals(r, st)).collect()).collect();
+    // the tablet operations of every table (aimed at the tokens of the keys, through the real statement)
+    let mut pending: Vec<std::collections::VecDeque<TabOp>> = Vec::new();
+    for (j, st) in stmts.iter().enumerate() {
+        let aim: Vec<i64> = match &prepared[j] {
+            Some(p) => keys[j]
+                .iter()
+                .filter_map(|k| {
+                    let typed: Vec<Option<CqlValue>> = st.marks.iter().zip(k).map(|(m, v)| to_cql(m.ty, v)).collect();
+                    p.calculate_token(&typed).ok().flatten().map(|t| t.value())
+                })
+                .collect(),
+            None => vec![],
         };
-        let per = (nkeys / nst).max(1);
-        let keys: Vec<Vec<Val>> = (0..per).map(|_| gen_vals(r, st)).collect();
-        // tokens of the keys (through the real statement), to aim tablets at them
-        let aim: Vec<i64> = keys
-            .iter()
-            .filter_map(|k| {
-                let typed: Vec<Option<CqlValue>> = st.marks.iter().zip(k).map(|(m, v)| to_cql(m.ty, v)).collect();
-                p.calculate_token(&typed).ok().flatten().map(|t| t.value())
-            })
-            .collect();
-        let tab_this = (st.ks as usize) < c.kss.len() && (c.kss[st.ks as usize].tablets || r.chance(1, 8));
-        let ops = if tab_this { gen_tablet_ops(r, c, &aim) } else { vec![] };
-        let split = if ops.is_empty() { 0 } else { r.below(ops.len() as u64 + 1) as usize };
-        let mut hist: Vec<TabOp> = Vec::new();
-        let mut ok = true;
-        for (phase, range) in [(0, 0..split), (1, split..ops.len())] {
-            for op in &ops[range] {
-                match run.apply(st, &p, op).await {
-                    Some(true) => hist.push(op.clone()),
-                    Some(false) => {}
-                    None => {
-                        ok = false;
-                        break;
+        let tab_this = prepared[j].is_some() && (st.ks as usize) < c.kss.len() && (c.kss[st.ks as usize].tablets || r.chance(1, 8));
+        pending.push(if tab_this { gen_tablet_ops(r, c, &aim).into() } else { Default::default() });
+    }
+    // history of each table: its own payloads + every refresh, in the order they were applied
+    let mut hist: Vec<Vec<TabOp>> = vec![Vec::new(); nst];
+    let mut broken = false;
+    for j in 0..nst {
+        let Some(p) = prepared[j].clone() else { continue };
+        let st = &stmts[j];
+        let split = r.below(pending[j].len() as u64 + 1) as usize;
+        for phase in 0..2 {
+            let mine = if phase == 0 { split } else { pending[j].len() };
+            let mut done = 0;
+            while done < mine && !broken {
+                // interleave: sometimes a payload of ANOTHER table goes first
+                let other: Vec<usize> = (0..nst).filter(|o| *o != j && prepared[*o].is_some() && !pending[*o].is_empty()).collect();
+                let t = if !other.is_empty() && r.chance(1, 3) { *r.pick(&other) } else { done += 1; j };
+                let Some(op) = pending[t].pop_front() else { continue };
+                let pt = prepared[t].clone().unwrap();
+                match run.apply(&stmts[t], &pt, &op).await {
+                    Some(true) => {
+                        if matches!(op, TabOp::Refresh) {
+                            for h in hist.iter_mut() {
+                                h.push(op.clone());
+                            }
+                        } else {
+                            hist[t].push(op.clone());
+                        }
                     }
+                    Some(false) => {}
+                    None => broken = true,
                 }
             }
-            if !ok {
-                out.case(&format!("K {} {} {} {}", cf, st.field(), tabs_s(&hist), "n"), "skip:tablet-sync -");
+            if broken {
+                out.case(&format!("K {} {} {} {}", cf, st.field(), tabs_s(&hist[j]), "n"), "skip:tablet-sync -");
                 break;
             }
-            let ks = if phase == 0 { &keys[..per / 4] } else { &keys[per / 4..] };
+            let ks = if phase == 0 { &keys[j][..per / 4] } else { &keys[j][per / 4..] };
             for k in ks {
                 let o = run.request(st, &p, k).await;
-                out.case(&format!("K {} {} {} {}", cf, st.field(), tabs_s(&hist), vals_s(k)), &o);
+                out.case(&format!("K {} {} {} {}", cf, st.field(), tabs_s(&hist[j]), vals_s(k)), &o);
+            }
+        }
+        if broken {
+            break;
+        }
+        // connection loss and refill between statements (more often where the plain port makes excess
+        // connections likely)
+        if r.chance(if c.cfg.no_sap { 3 } else { 2 }, 4) {
+            let up: Vec<usize> = (0..c.nodes.len()).filter(|i| run.expected(*i, true) > 0).collect();
+            let i = *r.pick(&up);
+            let have = run.judged.values().filter(|(nd, _)| *nd == i).count();
+            let count = match r.below(4) { 0 => have, 1 => 1, _ => r.range(1, have as u64) as usize };
+            if !run.kill_round(i, count).await {
+                out.case(&format!("K {} {} {} {}", cf, st.field(), tabs_s(&hist[j]), "n"), "skip:refill-not-established -");
+                broken = true;
+                break;
+            }
+            for (case, o) in &run.ptie {
+                out.case(case, o);
+            }
+        }
+    }
+    // the refiller tie: the whole life of every node's pool
+    if !broken && (run.still_established() || run.establish().await) {
+        let _ = run.drain();
+        for i in 0..c.nodes.len() {
+            if !c.nodes[i].flt {
+                let (case, o) = run.rline(i);
+                out.case(&case, &o);
             }
         }
     }
@@ -1187,6 +1357,39 @@ async fn replay_line(case: &str, out: &mut Out) {
                 match run.ptie.iter().find(|(cs, _)| cs == case) {
                     Some((_, o)) => out.case(case, o),
                     None => out.case(case, "skip:no-such-probe -"),
+                }
+                run.stop();
+            }
+            Err(e) => out.case(case, &format!("skip:{} -", e)),
+        }
+        return;
+    }
+    if f.len() == 4 && f[0] == "R" {
+        let (nr, msb) = f[1].split_once('.').unwrap();
+        let (pool, nosap) = f[2].split_once('/').unwrap();
+        let c = ClusterC {
+            nodes: vec![NodeC { dc: 1, rack: 1, nr: u16::from_str_radix(nr, 16).unwrap(), msb: u8::from_str_radix(msb, 16).unwrap(), up: 'u', flt: false, tokens: vec![0] }],
+            kss: vec![KsC { strat: Strat::Simple(1), tablets: false }],
+            cfg: CfgC { per_shard: pool.starts_with('S'), pool_n: usize::from_str_radix(&pool[1..], 16).unwrap(), no_sap: nosap == "1", pol_pref: Pref::Any, ta: true, fo: false, shuf: true, sess_pref: Pref::Any },
+        };
+        match Running::start(&c, &[]).await {
+            Ok(mut run) => {
+                let mut ok = true;
+                if f[3] != "-" {
+                    for k in f[3].split(',') {
+                        let want = usize::from_str_radix(&k[1..], 16).unwrap();
+                        if !run.kill_round(0, want).await {
+                            ok = false;
+                            break;
+                        }
+                    }
+                }
+                if ok {
+                    let _ = run.drain();
+                    let (_, o) = run.rline(0);
+                    out.case(case, &o);
+                } else {
+                    out.case(case, "skip:refill-not-established -");
                 }
                 run.stop();
             }
